@@ -83,8 +83,8 @@ namespace occa {
     deviceRing.addRef(dev);
   }
 
-  void modeDevice_t::removeDeviceRef(device *dev) {
-    deviceRing.removeRef(dev);
+  bool modeDevice_t::removeDeviceRef(device *dev) {
+    return deviceRing.removeRef(dev);
   }
 
   bool modeDevice_t::needsFree() const {
